@@ -102,6 +102,9 @@ public:
         if (thorough && rng.chance(p == "C09" ? 0 : 350)) { o.max_n = approx ? 24 : 40; o.max_m = approx ? 60 : 110; }
         else { o.max_n = 9; o.max_m = 36; }
         if (approx && rng.chance(500)) { o.max_n = std::max(o.max_n, 8); }
+        if (approx && rng.chance(400)) { o.max_n = std::max(o.max_n, (int) rng.range(10, 18)); o.max_m = std::max(o.max_m, 40); o.heavy_tail_pm = 1000; }
+        if (approx) o.hubs_pm = p == "C06" ? 300 : 150;
+        if (p != "C09") { o.boundary_pm = prop == "C07" ? 25 : 8; o.boundary_max_n = 129; }
         gen::GGraph g = gen::gen_graph(rng, o);
         Json cs = Json::object();
         cs["graph"] = gen::to_json(g);
@@ -109,6 +112,7 @@ public:
         if (approx) {
             cs["entry"] = APPROX[rng.below(3)];
             k = (int) rng.pick(std::vector<int> { 1, 1, 1, 2, 2, 2, 3, 3, 4, 5 });
+            if (g.family == "hubs") k = (int) rng.pick(std::vector<int> { 2, 2, 2, 3 });    // 2k-1 hops just cover the light gadgets
             if (p == "C06" && rng.chance(80)) k = 0;
         } else cs["entry"] = EXACT[rng.below(3)];
         Json cfg = Json::object(); cfg["k"] = k; cs["cfg"] = cfg;
